@@ -53,7 +53,7 @@ func checkC08(c *Check) {
 		for _, sc2 := range scs {
 			sc2 := sc2
 			var results []string
-			w := &walker{fn: prep, MaxVisits: 12}
+			w := &walker{fn: prep, MaxVisits: 12, Inline: 3}
 			w.Seed = func(w *walker, st *wstate, v ssa.Value) *absVal {
 				if u, ok := v.(*ssa.UnOp); ok && u.Op == token.MUL {
 					if fa, ok := u.X.(*ssa.FieldAddr); ok && fa.X == ssa.Value(recvParam) {
@@ -73,7 +73,11 @@ func checkC08(c *Check) {
 					return
 				}
 				bi, ok := call.Call.Value.(*ssa.Builtin)
-				if !ok || bi.Name() != "append" || len(call.Call.Args) != 2 || !strings.HasSuffix(call.Type().String(), "rlimit.RLimit") {
+				if !ok || bi.Name() != "append" || len(call.Call.Args) != 2 {
+					return
+				}
+				slT, isSl := call.Type().Underlying().(*types.Slice) // also a named list type
+				if !isSl || !strings.HasSuffix(slT.Elem().String(), "rlimit.RLimit") {
 					return
 				}
 				sl, ok := call.Call.Args[1].(*ssa.Slice)
@@ -86,7 +90,7 @@ func checkC08(c *Check) {
 					st.noteStr("entries", st.notedStr("entries")+"?;")
 					return
 				}
-				el := w.load(st, arr.key+"[0]", call.Type().(*types.Slice).Elem())
+				el := w.load(st, arr.key+"[0]", slT.Elem())
 				res, cur, max := "?", "?", "?"
 				if el.k == avStruct {
 					if f := el.fields["Res"]; f != nil {
